@@ -201,10 +201,44 @@ func runC13(c *core.Case) *core.Result {
 		}
 	}
 	var entries []*c13entry
+	var earlyOpen *core.Result
 	enter := func(alias string) *c13entry {
 		cl := newClient(alias)
 		d := cl.Open(key, typ, mode)
 		cl.Register()
+		if d != nil && r.Intn(3) == 0 {
+			// the key is opened again BEFORE the first sync of this client: same type => the
+			// instance it already holds; another type => refused through the given handler
+			nerr := 0
+			var hmu sync.Mutex
+			h2 := orda.NewHandlers(nil, nil, func(dt orda.Datatype, errs ...oerrors.OrdaError) {
+				hmu.Lock()
+				nerr += len(errs)
+				hmu.Unlock()
+			})
+			ot := otherType(typ, r)
+			var again, other orda.Datatype
+			pm := safely(func() {
+				again = bed.OpenRaw(cl.Cli, key, typ, mode, h2)
+				other = bed.OpenRaw(cl.Cli, key, ot, c13Modes[r.Intn(3)], h2)
+			})
+			c.Step("%s opens key %s again before its first sync (same type, then as %s)", alias, key, ot)
+			hmu.Lock()
+			n := nerr
+			hmu.Unlock()
+			switch {
+			case pm != "":
+				earlyOpen = c.Violation("client-panic", "opening key %q a second time before the first sync panicked: %s", key, pm)
+			case bed.IsNilDatatype(again):
+				earlyOpen = c.Violation("second-open-same-type", "opening a %s again before the first sync returned nothing", typ)
+			case func() bool { aw, ok := again.(iface.Datatype); return !ok || aw.GetDUID() != d.W.GetDUID() }():
+				earlyOpen = c.Violation("second-open-same-type", "opening a %s again before the first sync returned another instance than the one the client holds", typ)
+			case !bed.IsNilDatatype(other) || n == 0:
+				earlyOpen = c.Violation("second-open-other-type", "the client holds key %q as %s (not yet synced); opening it as %s returned a datatype: %v, errors delivered to the given handler: %d", key, typ, ot, !bed.IsNilDatatype(other), n)
+			default:
+				c.Count("second_opens_before_first_sync", 1)
+			}
+		}
 		// operations issued before the first sync (discarded if the entry becomes a subscribe)
 		if d != nil && r.Intn(2) == 0 {
 			w.localOp(d)
@@ -368,6 +402,7 @@ func runC13(c *core.Case) *core.Result {
 		e.errBase = len(errs)
 		return nil
 	}
+	_ = earlyOpen
 	switch {
 	case existing == "self-subscribed":
 		// re-send X's original entry request (bits set) while other clients are absent / first / racing
@@ -557,6 +592,9 @@ func runC13(c *core.Case) *core.Result {
 			return c.Violation("race-outcome", "%d racing %s requests (exists=%v sameType=%v): %d succeeded, a serial order gives %d", n, mode, exists, sameType, okCount, wantOK)
 		}
 		c.Count("racing_entries", int64(n))
+	}
+	if earlyOpen != nil {
+		return earlyOpen
 	}
 	// the same key opened AGAIN on a client that holds it: with the same type the client gets
 	// the instance it has (no second entry), with another type the open is refused through the
